@@ -6,7 +6,9 @@ Decided:
          (b64decode, bytes.decode, url_unquote_plus, tuple-unpacking of split()) are listed with the
          handlers enclosing them; if any is not under a ValueError-catching handler, then on the call path
          SignedCookieMiddleware.request -> load_cookie -> JSONCookie.unserialize -> super().unserialize some
-         clastic frame must catch Exception/ValueError, must not re-raise, and must yield an empty cookie;
+         clastic frame must catch Exception/ValueError, must not re-raise, and must yield an empty cookie; decoding primitives
+         clastic itself applies to what the client sent (to the string given to unserialize; in request(), to anything read from
+         the request other than through the loaded cookie) are under a handler of the same function that swallows the error;
   R16.b  JSONCookie.unquote is total: every call in it is under ``except Exception`` raising UnquoteError
          (the exception the dependency's MAC-then-unquote loop expects); quote() and unquote() are the two halves of
          one codec / serializer / charset; quote() is total on every value unquote() can return: it has no escaping
@@ -14,11 +16,15 @@ Decided:
          is 'ascii' unless ensure_ascii is switched off, then 'any str, unpaired surrogates included'; a strict
          encode of the latter is a violation, a non-strict error handler or an enclosing handler discharges it);
   R16.c  MAC before use (dependency): cls.unquote and the _expires comparison are dominated by the
-         safe_str_cmp(client_hash, mac.digest()) test; JSONCookie overrides neither hash_method nor
-         serialize, and its unserialize delegates to super with the same secret_key;
+         safe_str_cmp(client_hash, mac.digest()) test; the MAC is never compared with == ; a non-empty value of the data reaches
+         the returned cookie only along paths through the successful comparison; every return builds cls(<data>, secret_key, ..);
+         the branch taken when the clock is past the signed _expires empties the data; neither JSONCookie nor a mixin in front of
+         SecureCookie in its MRO overrides hash_method / serialize / load_cookie / save_cookie, and its unserialize delegates to
+         super with the same secret_key;
   R16.d  key plumbing: load_cookie gets self.secret_key / self.cookie_name; secret_key is the constructor
          argument or os.urandom; the cookie is provided under arg_name (= provides); save_cookie runs on the
-         next() result on every normal path; _expires is stamped only when absent and expiry is numeric.
+         next() result on every normal path; _expires is stamped only when absent and expiry is numeric, and what is stamped
+         is the sum of one clock reading and self.expiry (no term subtracted, none missing).
   R16.e  per-request state: no write of request() (attribute / item store, delete, mutating method call, global
          assignment; in the method itself or in a method of the class it calls) goes to an object that outlives the call --
          the middleware object, its class, a module-level container, a mutable default, or anything reached through
@@ -32,6 +38,11 @@ Decided:
          attributes and module-level names; a default-argument expression, a class attribute, a module-level value, a
          module / class variable filled lazily or a memoised factory is evaluated once per process, so that every middleware
          built without a key would sign with the same key (a cookie of one is "server-signed" for all others).
+  R16.g  one cookie object, unchanged: every value JSONCookie.unserialize returns is the cookie the dependency verified or an empty
+         one, and nothing is written to it there; request() provides to the endpoint and saves the very object load_cookie
+         returned (no re-binding on the way), writes nothing into it but the expiry stamp, and that only after the endpoint ran;
+         neither the stamp nor the expires / session_expires handed to save_cookie (which the dependency signs into the cookie as
+         _expires) derives from the request other than through the verified cookie.
   R16.h  what the application stored is written back: should_save (what save_cookie consults), looked up along the MRO of
          JSONCookie, is the dependency's (= modified) or an override that narrows it only by comparing the contents with a
          snapshot that shares no mutable object with the live cookie (deepcopy / a serialised form; a shallow copy or an alias
@@ -89,7 +100,8 @@ def run(rep):
     rep.decide('R16.a malformed cookies cannot raise out of the load; R16.b unquote total, quote total on what unquote returns, '
                'codec agreement; R16.c MAC dominates use; R16.d key plumbing, provide-under-name, save on every path; '
                'R16.e nothing request() learns from one request is written into an object shared with the next; '
-               'R16.f the random default key is drawn per constructed middleware; R16.h a modified cookie is written back '
+               'R16.f the random default key is drawn per constructed middleware; R16.g one cookie object flows unchanged from '
+               'verification to the endpoint to save_cookie, nothing of the request enters it; R16.h a modified cookie is written back '
                '(should_save / constructor overrides)')
     rep.decline('cryptographic strength; JSON round-trip fidelity; clock behaviour at the expiry instant')
     rep.assume('binascii.Error and UnicodeDecodeError are ValueError subclasses (CPython)')
@@ -194,6 +206,33 @@ def rule_a(rep, cx):
     for p in prims:
         if p not in uncovered:
             rep.ok('R16.a', '%s::%s' % (un.key, norm(p)), 'covered by a ValueError handler inside the dependency', dep, p)
+    # decoding primitives clastic itself applies to what the client sent (the string handed to unserialize; in request(), anything
+    # read from the request other than through the loaded cookie): each one under a handler of this function that does not re-raise
+    from ..effects import Flow
+    lst = stmt_of(ck, load_call)
+    cvars = set(t.id for t in getattr(lst, 'targets', []) if isinstance(t, ast.Name))
+    reqs = set(n.id for n in ast.walk(argn(load_call, 'request', 0) or ast.Constant(value=None)) if isinstance(n, ast.Name)) - {'self'}
+    for fi, sources, boundary, skip in ((ju, set(ju.params()[1:2]), set(), []), (rq, reqs, cvars, [lst])):
+        fl = Flow(fi)
+        for n in walk_body(fi.node):
+            prim, operands = None, []
+            if isinstance(n, ast.Call) and call_tail(n) in DECODERS:
+                prim = n
+                operands = ([n.func.value] if isinstance(n.func, ast.Attribute) else []) + list(n.args) + [k.value for k in n.keywords]
+            elif isinstance(n, ast.Assign) and isinstance(n.targets[0], ast.Tuple) and isinstance(n.value, ast.Call) and call_tail(n.value) == 'split' \
+                    and isinstance(n.value.func, ast.Attribute):
+                prim, operands = n.value, [n.value.func.value]
+            if prim is None:
+                continue
+            at = stmt_of(ck, prim)
+            if not any(_derives(fl, o, at, sources, boundary, skip) for o in operands):
+                continue
+            h = protected_by(fi, prim, 'ValueError')
+            ok = h is not None and not any(isinstance(x, ast.Raise) for x in ast.walk(h))
+            rep.check('R16.a', fkey(fi, 'own primitive: %s' % norm(prim)), ok,
+                      'decoding of client data in %s is under a handler that swallows the error' % fi.qualname if ok else
+                      '%s decodes what the client sent outside any handler of %s that swallows ValueError: a malformed cookie / request value '
+                      'makes the request fail with 500 instead of yielding an empty cookie' % (short(prim, 50), fi.qualname), ck, prim)
     rep.floor('R16.a', 3)
 
 
@@ -551,6 +590,62 @@ def rule_c(rep, cx):
     upd = [c for c in walk_body(un.node) if isinstance(c, ast.Call) and norm(c.func).endswith('mac.update')]
     rep.check('R16.c', '%s::mac.update' % un.key, bool(upd), 'MAC is computed over the received items' if upd else
               'no mac.update over the received items', dep, un.node)
+    # (facts of the pinned dependency, read from its source like the ones above)
+    from ..effects import Flow
+    fl = Flow(un)
+    digests = [c for c in walk_body(un.node) if isinstance(c, ast.Compare) and any(isinstance(o, (ast.Eq, ast.NotEq, ast.Is, ast.IsNot)) for o in c.ops)
+               and any(isinstance(x, ast.Call) and call_tail(x) in ('digest', 'hexdigest')
+                       for side in [c.left] + c.comparators for lf in fl.leaves(side, stmt_of(dep, c)) for x in ast.walk(lf.value))]
+    rep.check('R16.c', '%s::constant-time comparison' % un.key, not digests, 'the MAC is compared by safe_str_cmp / compare_digest only' if not digests else
+              'the MAC is compared with %s: the comparison time tells the client how many leading bytes of a forged MAC are right' % short(digests[0], 40),
+              dep, digests[0] if digests else un.node)
+    rets = returns_of(un)
+    from ..effects import effects_in
+    filled = set(ef.root for ef in effects_in(un.node) if ef.kind in ('store', 'mutcall'))
+
+    def final_empty(name, v):
+        # ``()`` / None stay empty; an empty dict / list display is the start of what the item stores of the function fill
+        return _is_empty(v) and (isinstance(v, (ast.Tuple, ast.Constant)) or name not in filled)
+    for r in rets:
+        v = r.value
+        built = isinstance(v, ast.Call) and norm(v.func) == 'cls' and not any(isinstance(a, ast.Starred) for a in v.args) and not any(k.arg is None for k in v.keywords)
+        data, key = (argn(v, 'data', 0), argn(v, 'secret_key', 1)) if built else (None, None)
+        ok = built and data is not None and key is not None and norm(key) == un.params()[-1]
+        rep.check('R16.c', '%s::returns %s' % (un.key, norm(v)), ok, 'unserialize returns cls(<items>, secret_key, ..): a cookie of the class it was called on, with the key' if ok else
+                  'SecureCookie.unserialize returns %s, not cls(<items>, secret_key, ..)' % short(v, 40), dep, r)
+        if not ok:
+            continue
+        for lf in fl.leaves(data, r):
+            if final_empty(norm(data), lf.value):
+                continue
+            # a non-empty value of the data reaches the constructor only along paths through the successful MAC comparison
+            ds = [d for d in fl.reaching(norm(data), r) if d.kind == 'assign' and d.value is lf.value] if isinstance(data, ast.Name) else []
+            through = bool(ds) and all(has_cond(list(conds(un, d.stmt)) + list(fl.flow_conds(d, r)), is_mac, True) for d in ds)
+            rep.check('R16.c', '%s::data %s' % (un.key, norm(lf.value)), through,
+                      'the non-empty data %s reaches the returned cookie only through the successful MAC comparison' % short(lf.value, 20) if through else
+                      'data %s can reach the returned cookie without a successful MAC comparison' % short(lf.value, 30), dep, lf.stmt)
+    for e in exp:
+        # orientation: the cookie is emptied when now > _expires
+        l, op, r_ = e.left, e.ops[0], e.comparators[0]
+        now_left = any(isinstance(x, ast.Call) and norm(x.func) in ('time', 'time.time') for x in ast.walk(l))
+        now_right = any(isinstance(x, ast.Call) and norm(x.func) in ('time', 'time.time') for x in ast.walk(r_))
+        expired_when = True if (now_left and isinstance(op, (ast.Gt, ast.GtE))) or (now_right and isinstance(op, (ast.Lt, ast.LtE))) else \
+            False if (now_left and isinstance(op, (ast.Lt, ast.LtE))) or (now_right and isinstance(op, (ast.Gt, ast.GtE))) else None
+        if expired_when is None or len(e.ops) != 1 or now_left == now_right:
+            raise AnalysisError('dependency unserialize: the expiry comparison %s is not followed' % short(e, 40))
+        # the branch taken when the clock is past _expires empties the data, the other one does not
+        iff = [st for st in stmts_of(un.node) if isinstance(st, ast.If) and st.test is e]
+        datas = set(argn(r.value, 'data', 0).id for r in rets if isinstance(r.value, ast.Call) and isinstance(argn(r.value, 'data', 0), ast.Name))
+        if len(iff) != 1 or not datas:
+            raise AnalysisError('dependency unserialize: the statement testing %s is not followed' % short(e, 40))
+        past, not_past = (iff[0].body, iff[0].orelse) if expired_when else (iff[0].orelse, iff[0].body)
+
+        def empties(block):
+            return any(isinstance(st, ast.Assign) and any(isinstance(t, ast.Name) and t.id in datas for t in st.targets) and
+                       isinstance(st.value, (ast.Tuple, ast.Constant)) and _is_empty(st.value) for b_ in block for st in ast.walk(b_))
+        ok = empties(past) and not empties(not_past)
+        rep.check('R16.c', '%s::expiry orientation' % un.key, ok, 'the data is discarded when the clock is past the signed _expires' if ok else
+                  'the comparison %s keeps the data when the clock is past _expires' % short(e, 40), dep, e)
     jc = ck.cls('JSONCookie')
     for nm in ('hash_method', 'serialize', 'load_cookie', 'save_cookie'):
         owner, _ = cx.repo.class_attr(jc, nm)       # along the MRO: a mixin listed before SecureCookie overrides as well
@@ -710,6 +805,20 @@ def rule_d(rep, cx):
                   '_expires is stamped unconditionally / for non-numeric expiry: %s' % '; '.join(cond_texts(cs)), ck, s)
     ok = bool(saves) and all(_saved_under(cx, rq, c) == 'self.cookie_name' for c in saves)
     rep.check('R16.d', fkey(rq, 'save key'), ok, 'cookie is saved under self.cookie_name' if ok else 'cookie is not saved under self.cookie_name', ck, rq.node)
+    for s, _ in _stamps(cx, rq, cvar):
+        v = _stamp_value(cx, s)
+        if v is None:
+            continue
+        pos, neg, other = _sum_terms(cx, rq, v, 1, 0)
+        kinds = [k for k, _ in pos]
+        if other:
+            raise AnalysisError('SignedCookieMiddleware.request: the stamped expiry %s has a term that is not followed (%s)' % (short(v, 50), short(other[0], 40)))
+        ok = not neg and sorted(kinds) == ['clock', 'expiry']
+        why = 'the stamp is the clock plus the configured expiry' if ok else \
+            ('%s is subtracted' % short(neg[0][1], 30) if neg else
+             'no clock term: a number of seconds is stamped as an absolute time (long past: the cookie is discarded on every load)' if 'clock' not in kinds else
+             'no expiry term: the cookie expires the moment it is issued' if 'expiry' not in kinds else 'clock / expiry counted more than once')
+        rep.check('R16.d', fkey(rq, '_expires stamp value'), ok, why if ok else 'the stamped expiry %s is not "now + self.expiry": %s' % (short(v, 50), why), ck, s)
     rep.floor('R16.d', 9)
 
 
@@ -1149,6 +1258,67 @@ def _request_time_text(mw, init, v, at):
                 if set(id(d.stmt) for d in fl.reaching(v.id, st)) == mine and stable(st.targets[0].attr):
                     return norm(st.targets[0])
     return norm(v) + ' (constructor value)'
+
+
+NUMERIC_WRAPPERS = ('int', 'float', 'round')
+CLOCKS = ('time.time',)
+
+
+def _stamp_value(cx, s):
+    """The value expression a stamp statement stores under the expiry key; None when it has none of its own."""
+    if isinstance(s, (ast.Assign, ast.AnnAssign)):
+        return s.value
+    c = s.value if isinstance(s, ast.Expr) else None
+    if isinstance(c, ast.Call) and isinstance(c.func, ast.Attribute):
+        if c.func.attr == 'setdefault' and len(c.args) == 2:
+            return c.args[1]
+        if c.func.attr == 'set_expires' and len(c.args) == 1 and not c.keywords:
+            return c.args[0]
+        if c.func.attr == 'update':
+            for k in c.keywords:
+                if k.arg == EXPIRES:
+                    return k.value
+            for a in c.args:
+                if isinstance(a, ast.Dict):
+                    for k, v in zip(a.keys, a.values):
+                        if k is not None and cx.fold(k) == EXPIRES:
+                            return v
+    return None
+
+
+def _is_clock(cx, f):
+    if norm(f) in CLOCKS:
+        return True
+    if isinstance(f, ast.Name):
+        kind, _, obj = cx.repo.resolve(cx.ck, f.id)
+        return kind == 'external' and obj in CLOCKS
+    if isinstance(f, ast.Attribute) and isinstance(f.value, ast.Name):
+        kind, _, obj = cx.repo.resolve(cx.ck, f.value.id)
+        return kind == 'module' and isinstance(obj, str) and '%s.%s' % (obj, f.attr) in CLOCKS
+    return False
+
+
+def _sum_terms(cx, fi, e, sign, depth):
+    """(positive terms, negative terms, terms not followed) of a sum; a term is ('clock' | 'expiry', node)."""
+    e = _follow(fi, e)
+    if depth > 8:
+        return [], [], [e]
+    if isinstance(e, ast.BinOp) and isinstance(e.op, (ast.Add, ast.Sub)):
+        p1, n1, o1 = _sum_terms(cx, fi, e.left, sign, depth + 1)
+        p2, n2, o2 = _sum_terms(cx, fi, e.right, sign if isinstance(e.op, ast.Add) else -sign, depth + 1)
+        return p1 + p2, n1 + n2, o1 + o2
+    if isinstance(e, ast.UnaryOp) and isinstance(e.op, (ast.USub, ast.UAdd)):
+        return _sum_terms(cx, fi, e.operand, -sign if isinstance(e.op, ast.USub) else sign, depth + 1)
+    if isinstance(e, ast.Call) and isinstance(e.func, ast.Name) and e.func.id in NUMERIC_WRAPPERS and len(e.args) == 1 and not e.keywords:
+        return _sum_terms(cx, fi, e.args[0], sign, depth + 1)
+    kind = None
+    if isinstance(e, ast.Call) and not e.args and not e.keywords and _is_clock(cx, e.func):
+        kind = 'clock'
+    elif norm(e) == 'self.expiry':
+        kind = 'expiry'
+    if kind is None:
+        return [], [], [e]
+    return ([(kind, e)], [], []) if sign > 0 else ([], [(kind, e)], [])
 
 
 def _stamps(cx, fi, cvar):
